@@ -302,7 +302,69 @@ def scaling(rep, rng, quick):
     rep.extra["recursion_probe_sizes_ok"] = depth_ok
 
 
+MEMCHECK = ["valgrind", "-q", "--error-exitcode=99", "--track-origins=yes", "--num-callers=16",
+            "--log-file={workdir}/vg.%p"]
+
+
+def selftest(rep):
+    """The monitors must be alive: a deliberate use-after-free has to come back as an ASan report and a deliberate
+    branch on uninitialised memory as a memcheck report; otherwise nothing this check says can be believed."""
+    from ..runner import HarnessFailure
+    c = Case("self_uaf", [Step("crash_selftest")])
+    r = run_cases([c])[c.id]
+    if os.environ.get("VERIF_COV"):
+        return
+    if crash_kind(r) != "asan:heap-use-after-free":
+        raise HarnessFailure("ASan self test did not fire: %s" % (crash_kind(r),))
+    c = Case("self_uninit", [Step("uninit_selftest")])
+    r = run_cases([c], variant="plain", wrapper=MEMCHECK)[c.id]
+    if not (r["status"] == "exit" and r["code"] == 99 and "uninitialised" in r.get("stderr", "")):
+        raise HarnessFailure("memcheck self test did not fire: %s %s" % (r["status"], r.get("code")))
+    rep.extra["monitor_selftests"] = "ASan use-after-free and memcheck uninitialised-branch self tests fired"
+
+
+def memcheck_sample(rep, rng, n):
+    """A sample of the hostile workloads again under valgrind memcheck on the uninstrumented build: branches on and
+    uses of uninitialised values (which ASan/UBSan cannot see) and invalid accesses inside uninstrumented libxml2
+    caused by arguments passed from utap."""
+    cs = model_cases(rng, n // 3) + part_cases(rng, n // 3) + query_cases(rng, n // 4) + xta_cases(rng, n // 6)
+    dom = dom_cases(rng, True)
+    cs += rng.sample(dom, min(len(dom), n // 3))
+    res = run_cases([c for _, c in cs], variant="plain", wrapper=MEMCHECK, chunk_size=max(1, len(cs) // 64))
+    seen = 0
+    for tag, c in cs:
+        r = res[c.id]
+        if r["status"] == "timeout":
+            rep.inconclusive_case("watchdog(memcheck)")
+            continue
+        seen += 1
+        err = r.get("stderr", "")
+        if r["status"] == "exit" and r["code"] == 99 or "== Invalid " in err or "uninitialised" in err:
+            m = re.search(r"==\d+== ([A-Z][^\n]{0,70})", err)
+            what = re.sub(r"\d+", "N", m.group(1)).strip().replace(" ", "_") if m else "report"
+            fr = []
+            for fm in re.finditer(r"^==\d+==\s+(?:at|by) 0x[0-9A-F]+: (.+?) \((\S+?):\d+\)\s*$", err, re.M):
+                fn, f = fm.group(1), fm.group(2)
+                if f.endswith((".cpp", ".y", ".l", ".h", ".cc")) and not f.startswith(("driver", "dump", "invariants", "laws")) \
+                        and not fn.startswith("std::") and "vg_replace" not in f:
+                    fr.append(re.sub(r"\(.*$", "", fn))
+                if len(fr) >= 2:
+                    break
+            rep.violation("C01:memcheck:%s:%s" % (what[:50], ">".join(fr) or "noframe"),
+                          "valgrind memcheck report on input class %s: %s" % (tag, err[:1500]), c)
+        elif r["status"] != "ok":
+            # the uninstrumented build may die on inputs that are listed findings of the ASan pass; classify as there
+            if "stack" in err.lower() or r.get("code") == 11:
+                rep.inconclusive_case("signal in memcheck pass (decided by the ASan pass)")
+            else:
+                rep.inconclusive_case("memcheck child status %s/%s" % (r["status"], r.get("code")))
+        else:
+            rep.observe(("memcheck", tag.split("/")[0], len(r["steps"][-1].get("errors", []))))
+    rep.extra["memcheck_cases"] = seen
+
+
 def run(rep, tier, seed):
+    selftest(rep)
     rng = random.Random(seed * 1000003 + 1)
     quick = tier == "quick"
     k = 1 if quick else 20
@@ -363,6 +425,7 @@ def run(rep, tier, seed):
         if r["status"] != "ok":
             rep.crash(r, c)
     scaling(rep, rng, quick)
+    memcheck_sample(rep, random.Random(seed * 31 + 5), 300 if quick else 6000)
     fz = fuzz.run_fuzzers(rep, seed, quick)
     rep.sample({"class": groups[0][1][0][0], "input": groups[0][1][0][1].steps[0].args[-1].decode("utf-8", "replace")[:800]})
     rep.sample({"class": groups[1][1][0][0], "part": groups[1][1][0][1].steps[-1].args[2].decode(), "text": groups[1][1][0][1].steps[-1].args[4].decode("utf-8", "replace")[:300]})
